@@ -84,6 +84,7 @@ static const char* status_name(Solver::Status s) {
 static string vtok(const Vector& v) { string s; for (int i = 0; i < v.size(); i++) { if (i) s += ";"; s += hex(v[i]); } return s; }
 
 static bool C06_LINES = false;
+static long RUN_ID = 0;      // id of the solver run the lines come from (last input token of solvelog / solvept / resumelog lines)
 static void report(Rng& r, Problem& P, const IntervalVector& root, const CovSolverData& d, Solver::Status st, const vector<string>& log, const Vector& eps_min, bool with_log) {
   string pv = paving_token(d, P.n, P.m);
   if (C06_LINES && P.m > 0) {
@@ -97,7 +98,7 @@ static void report(Rng& r, Problem& P, const IntervalVector& root, const CovSolv
   }
   if (with_log) {
     string ev; if (log.empty()) ev = "-"; for (size_t i = 0; i < log.size(); i++) { if (i) ev += ","; ev += log[i]; }
-    EMIT("solvelog %s %s %s %s %s %s => %s\n", P.dags.c_str(), P.specs.c_str(), tok(root).c_str(), ev.c_str(), pv.c_str(), vtok(eps_min).c_str(), status_name(st));
+    EMIT("solvelog %s %s %s %s %s %s run%ld => %s\n", P.dags.c_str(), P.specs.c_str(), tok(root).c_str(), ev.c_str(), pv.c_str(), vtok(eps_min).c_str(), RUN_ID, status_name(st));
   }
   // planted and sampled points
   vector<Vector> pts = P.planted;
@@ -105,7 +106,7 @@ static void report(Rng& r, Problem& P, const IntervalVector& root, const CovSolv
     if (r.coin(40)) { int i = r.below(P.n); q = P.planted[0]; q[i] = root[i].lb() + r.range(0, 32) / 32.0 * (root[i].ub() - root[i].lb()); if (!root[i].contains(q[i])) q[i] = P.planted[0][i]; }
     pts.push_back(q); }
   if (!C06_LINES)   // (completeness is property C05)
-  for (auto& q : pts) if (root.contains(q)) EMIT("solvept %s %s %s %s => 1\n", P.dags.c_str(), P.specs.c_str(), ptok(q).c_str(), pv.c_str());
+  for (auto& q : pts) if (root.contains(q)) EMIT("solvept %s %s %s %s run%ld => 1\n", P.dags.c_str(), P.specs.c_str(), ptok(q).c_str(), pv.c_str(), RUN_ID);
   // (a sample of at most 25 boxes of each kind)
   { size_t N = d.nb_inner(), step = N > 25 ? N / 25 : 1; for (size_t i = 0; i < N; i += step) if (P.m == 0) EMIT("solveinner %s %s %s => 1\n", P.dags.c_str(), P.specs.c_str(), tok(d.inner(i)).c_str()); }
   { size_t N = d.nb_unknown(), step = N > 25 ? N / 25 : 1; for (size_t i = 0; i < N; i += step) EMIT("solveunknown %s %s => 1\n", tok(d.unknown(i)).c_str(), vtok(eps_min).c_str()); }
@@ -162,11 +163,12 @@ static void wl_resume(Rng& r, long count, bool full, const string& file) {
       if ((long)ks.size() > maxk) { vector<long> sel; for (long k : ks) if (k <= 3 || k >= N - 8 || r.coin((int)(100 * maxk / ks.size()))) sel.push_back(k); ks = sel; }
       ks.push_back(-2);   // interruption by the time limit (non-deterministic point)
       for (long k : ks) {
+        RUN_ID++;   // (one id for the whole chain of interrupted / resumed runs: a lost solution shows at the end of the chain)
         int links = r.coin(25) ? (int)r.range(2, 3) : 1;
         Run* cur = (k == -2) ? new Run(P, c, 0, -1, 1e-4 * r.range(1, 20)) : new Run(P, c, 0, k, 60);
-        if (r.coin(10) && cur->log.size() < 3000) {
+        if (cur->log.size() < 3000) {
           string pv = paving_token(cur->s->get_data(), P.n, P.m);
-          EMIT("solvelog %s %s %s %s %s %s => %s\n", P.dags.c_str(), P.specs.c_str(), tok(root).c_str(), cur->events().c_str(), pv.c_str(), vtok(c.eps_min).c_str(), status_name(cur->st));
+          EMIT("solvelog %s %s %s %s %s %s run%ld => %s\n", P.dags.c_str(), P.specs.c_str(), tok(root).c_str(), cur->events().c_str(), pv.c_str(), vtok(c.eps_min).c_str(), RUN_ID, status_name(cur->st));
         }
         for (int l = 0; l < links; l++) {
           string saved = items_token(cur->s->get_data(), P.n, P.m);
@@ -178,8 +180,8 @@ static void wl_resume(Rng& r, long count, bool full, const string& file) {
           long k2 = (l + 1 < links) ? r.range(1, (int)std::max(2L, N / 2)) : -1;
           cur = new Run(P, c, &data, k2, 60);
           if (cur->log.size() < 8000)
-            EMIT("resumelog %s %s %s %s %s %s => %s\n", P.dags.c_str(), P.specs.c_str(), loaded.c_str(), cur->events().c_str(),
-                 items_token(cur->s->get_data(), P.n, P.m).c_str(), vtok(c.eps_min).c_str(), status_name(cur->st));
+            EMIT("resumelog %s %s %s %s %s %s run%ld => %s\n", P.dags.c_str(), P.specs.c_str(), loaded.c_str(), cur->events().c_str(),
+                 items_token(cur->s->get_data(), P.n, P.m).c_str(), vtok(c.eps_min).c_str(), RUN_ID, status_name(cur->st));
         }
         // the final data must satisfy the guarantees of an uninterrupted run
         vector<string> nolog;
@@ -237,7 +239,7 @@ int main(int argc, char** argv) {
         else if (P.m < P.n) s.cell_limit = r.range(100, 400);   // pavings of sets: keep the log small
         else s.cell_limit = 3000;
         s.time_limit = 20; s.trace = 0;
-        vector<string> log; LOG = &log;
+        vector<string> log; LOG = &log; RUN_ID++;
         Solver::Status st = s.solve(root);
         LOG = 0;
         check_round_up("solver");
@@ -249,6 +251,7 @@ int main(int argc, char** argv) {
         try {
           DefaultSolver ds(sys, eps_min, POS_INFINITY, r.coin(), 1.0);
           ds.time_limit = 20; ds.cell_limit = P.m < P.n ? 300 : 2000;
+          RUN_ID++;
           Solver::Status st = ds.solve(root);
           EMIT("defaultsolver run => %s\n", status_name(st));
           vector<string> nolog; report(r, P, root, ds.get_data(), st, nolog, eps_min, false);
